@@ -61,6 +61,7 @@ def Step.target : Step → Option Nat
   | .dups .. => none
   | .fresh dst .. => some dst
   | .discover dst .. => some dst
+  | .roundtrip dst .. => some dst
   | .remapCurie dst .. => some dst
   | .remapUri dst .. => some dst
   | .rewire dst .. => some dst
